@@ -351,5 +351,127 @@ impl DisplacedTable {
 //@ end-fn
 //@ end-impl
 
+// ---- Canonicalizer::rebuild_subset: what one incremental rebuild pass does to the rows it scans (C01 / C04) ----
+/// A-db: TaggedRowBuffer as a sequence of (source row id, row) pairs with a stale flag each
+#[verifier::external_body]
+pub struct TaggedRowBuffer { _p: core::marker::PhantomData<u8> }
+pub struct TRow { pub id: RowId, pub vals: Seq<Value>, pub stale: bool }
+#[verifier::external_body]
+pub struct ExecutionState { _p: core::marker::PhantomData<u8> }
+#[verifier::external_body]
+#[derive(Clone, Copy)]
+pub struct WrappedTableRef<'a> { _p: core::marker::PhantomData<&'a u8> }
+#[verifier::external_body]
+#[derive(Clone, Copy)]
+pub struct SubsetRef<'a> { _p: core::marker::PhantomData<&'a u8> }
+/// the rows of `other` selected by `subset`, in scan order (all of the table's arity, none stale)
+pub uninterp spec fn scanned(other: WrappedTableRef<'_>, subset: SubsetRef<'_>) -> Seq<TRow>;
+pub uninterp spec fn arity(other: WrappedTableRef<'_>) -> nat;
+
+impl TaggedRowBuffer {
+    pub uninterp spec fn view(&self) -> Seq<TRow>;
+    #[verifier::external_body]
+    pub fn len(&self) -> (r: usize) ensures r == self@.len() { unimplemented!() }
+    #[verifier::external_body]
+    pub fn get_row_mut(&mut self, row: RowId) -> (r: (RowId, &mut [Value]))
+        requires row.ix() < old(self)@.len(),
+        ensures
+            r.0 == old(self)@[row.ix() as int].id,
+            r.1@ == old(self)@[row.ix() as int].vals,
+            final(self)@.len() == old(self)@.len(),
+            final(self)@[row.ix() as int] == (TRow { id: old(self)@[row.ix() as int].id, vals: final(r.1)@, stale: old(self)@[row.ix() as int].stale }),
+            final(r.1)@.len() == r.1@.len(),
+            forall|j: int| 0 <= j < old(self)@.len() && j != row.ix() ==> final(self)@[j] == old(self)@[j],
+    { unimplemented!() }
+    #[verifier::external_body]
+    pub fn set_stale(&mut self, row: RowId) -> (r: bool)
+        requires row.ix() < old(self)@.len(),
+        ensures
+            final(self)@.len() == old(self)@.len(),
+            final(self)@[row.ix() as int] == (TRow { id: old(self)@[row.ix() as int].id, vals: old(self)@[row.ix() as int].vals, stale: true }),
+            forall|j: int| 0 <= j < old(self)@.len() && j != row.ix() ==> final(self)@[j] == old(self)@[j],
+    { unimplemented!() }
+}
+impl WrappedTableRef<'_> {
+    // A-db: scanning an unbounded number of rows of a subset appends exactly those rows and reports completion
+    #[verifier::external_body]
+    pub fn scan_bounded(self, subset: SubsetRef<'_>, start: Offset, n: usize, out: &mut TaggedRowBuffer) -> (r: Option<Offset>)
+        ensures
+            start.ix() == 0 && n == usize::MAX ==> r is None && final(out)@ == old(out)@ + scanned(self, subset),
+            forall|k: int| 0 <= k < scanned(self, subset).len() ==> (#[trigger] scanned(self, subset)[k]).vals.len() == arity(self) && !scanned(self, subset)[k].stale,
+    { unimplemented!() }
+}
+
+/// the row a rebuild pass must produce from `src`: every column in `cols` replaced by the canonical id
+pub open spec fn canon_row(p: Seq<Value>, cols: Seq<ColumnId>, src: Seq<Value>, dst: Seq<Value>) -> bool {
+    &&& dst.len() == src.len()
+    &&& forall|c: int| 0 <= c < src.len() ==> #[trigger] dst[c].ix() ==
+            (if exists|k: int| 0 <= k < cols.len() && cols[k].ix() == c { root(p, src[c].ix()) } else { src[c].ix() })
+}
+
+pub open spec fn row_is_canon(p: Seq<Value>, cols: Seq<ColumnId>, src: Seq<Value>) -> bool {
+    forall|k: int| 0 <= k < cols.len() ==> root(p, src[(#[trigger] cols[k]).ix() as int].ix()) == src[cols[k].ix() as int].ix()
+}
+
+//@ impl core-relations/src/uf/mod.rs impl Rebuilder for Canonicalizer<'_> => impl Canonicalizer<'_>
+//@ fn rebuild_subset
+//@ rewrite R-BOOLOP changed
+//@ rewrite R-HOISTEND 0
+//@ rewrite R-ITER 1
+//@ at sig
+        requires
+            self.table.inv(),
+            old(out)@.len() + scanned(other, subset).len() <= u32::MAX,
+            forall|k: int| 0 <= k < self.cols@.len() ==> (#[trigger] self.cols@[k]).ix() < arity(other),
+        ensures
+            final(out)@.len() == old(out)@.len() + scanned(other, subset).len(),
+            // what was in the buffer before is untouched
+            forall|j: int| 0 <= j < old(out)@.len() ==> #[trigger] final(out)@[j] == old(out)@[j],
+            // every scanned row comes out with the rebuilt columns canonical and everything else unchanged;
+            // it is marked stale ("nothing to do") exactly when it was already canonical
+            forall|j: int| 0 <= j < scanned(other, subset).len() ==> ({
+                let src = scanned(other, subset)[j];
+                let dst = #[trigger] final(out)@[old(out)@.len() + j];
+                &&& dst.id == src.id
+                &&& canon_row(self.table.p(), self.cols@, src.vals, dst.vals)
+                &&& dst.stale == row_is_canon(self.table.p(), self.cols@, src.vals)
+            }),
+//@ at loop 0 spec
+            invariant
+                self.table.inv(),
+                old_len == old(out)@.len(),
+                __e0 == out@.len(),
+                old_len <= i,
+                forall|k: int| 0 <= k < scanned(other, subset).len() ==> (#[trigger] scanned(other, subset)[k]).vals.len() == arity(other) && !scanned(other, subset)[k].stale,
+                out@.len() == old(out)@.len() + scanned(other, subset).len(),
+                out@.len() <= u32::MAX,
+                forall|k: int| 0 <= k < self.cols@.len() ==> (#[trigger] self.cols@[k]).ix() < arity(other),
+                forall|j: int| 0 <= j < old(out)@.len() ==> #[trigger] out@[j] == old(out)@[j],
+                forall|j: int| i <= j < out@.len() ==> #[trigger] out@[j] == scanned(other, subset)[j - old(out)@.len()],
+                forall|j: int| old(out)@.len() <= j < i ==> ({
+                    let src = scanned(other, subset)[j - old(out)@.len()];
+                    let dst = #[trigger] out@[j];
+                    &&& dst.id == src.id
+                    &&& canon_row(self.table.p(), self.cols@, src.vals, dst.vals)
+                    &&& dst.stale == row_is_canon(self.table.p(), self.cols@, src.vals)
+                }),
+//@ at loop 0 body-start
+            let ghost src = scanned(other, subset)[i as int - old(out)@.len()];
+            let ghost out0 = out@;
+//@ at loop 1 spec
+                invariant
+                    self.table.inv(),
+                    row@.len() == src.vals.len(),
+                    src.vals.len() == arity(other),
+                    forall|k: int| 0 <= k < self.cols@.len() ==> (#[trigger] self.cols@[k]).ix() < arity(other),
+                    // columns named by the first `index` entries of cols are canonical, the others still as scanned
+                    forall|c: int| 0 <= c < src.vals.len() ==> #[trigger] row@[c].ix() ==
+                        (if exists|k: int| 0 <= k < __it1.index@ && self.cols@[k].ix() == c { root(self.table.p(), src.vals[c].ix()) } else { src.vals[c].ix() }),
+                    changed == !(forall|k: int| 0 <= k < __it1.index@ ==> root(self.table.p(), src.vals[(#[trigger] self.cols@[k]).ix() as int].ix()) == src.vals[self.cols@[k].ix() as int].ix()),
+//@ at loop 1 body-start
+                proof { union_find::lemma_root_fixed(self.table.p(), src.vals[col.ix() as int].ix()); }
+//@ end-fn
+//@ end-impl
+
 } // verus!
 fn main() {}
